@@ -259,10 +259,21 @@ def check_entries(ctx, w):
     tr = expr.assign_trace(f.node, env)
     ctx.ob('I-STRIDE', f.construct, 'entry n at section offset + n*8', tr.get('eh_index_entry_offset') == [('=', expr.spec_nf('section_offset(self) + n * EHABI_INDEX_ENTRY_SIZE'))],
            got=tr.get('eh_index_entry_offset'))
-    ctx.ob('I-STRIDE', f.construct, 'function offset: prel31 of word0 at the entry', tr.get('function_offset') ==
-           [('=', expr.spec_nf('arm_expand_prel31(word0, section_offset(self) + n * EHABI_INDEX_ENTRY_SIZE)'))], got=tr.get('function_offset'))
-    ctx.ob('I-STRIDE', f.construct, 'table offset: prel31 of word1 at the entry + 4', tr.get('eh_table_offset') ==
-           [('=', expr.spec_nf('arm_expand_prel31(word1, section_offset(self) + n * EHABI_INDEX_ENTRY_SIZE + 4)'))], got=tr.get('eh_table_offset'))
+    # (the entry position written out again or taken from the local that holds it: the same value)
+    import copy
+    defs = [st.value for st in ast.walk(f.node) if isinstance(st, ast.Assign) and len(st.targets) == 1 and U(st.targets[0]) == 'eh_index_entry_offset']
+
+    def resolved(name):
+        out = []
+        for st in ast.walk(f.node):
+            if isinstance(st, ast.Assign) and len(st.targets) == 1 and U(st.targets[0]) == name:
+                v = expr._StoreSubst({'eh_index_entry_offset': defs[0]}).visit(copy.deepcopy(st.value)) if len(defs) == 1 else st.value
+                out.append(('=', expr.nfs(ast.fix_missing_locations(v), env)))
+        return out
+    ctx.ob('I-STRIDE', f.construct, 'function offset: prel31 of word0 at the entry', resolved('function_offset') ==
+           [('=', expr.spec_nf('arm_expand_prel31(word0, section_offset(self) + n * EHABI_INDEX_ENTRY_SIZE)'))], got=resolved('function_offset'))
+    ctx.ob('I-STRIDE', f.construct, 'table offset: prel31 of word1 at the entry + 4', resolved('eh_table_offset') ==
+           [('=', expr.spec_nf('arm_expand_prel31(word1, section_offset(self) + n * EHABI_INDEX_ENTRY_SIZE + 4)'))], got=resolved('eh_table_offset'))
     ops = [o.t() for o in streams.func_ops(f.node, env)]
     want = [('parse', 'stream', 'EH_index_struct', 'eh_index_entry_offset'), ('parse', 'stream', 'EH_table_struct', 'eh_table_offset'),
             ('seek', 'stream', expr.spec_nf('eh_table_offset + 4'), 'SEEK_SET'), ('parse', 'stream', 'EH_table_struct', None)]
